@@ -82,8 +82,7 @@ def run_shard(pid, tier, seed, shard, nshards, workload, replay=None):
         mod.install(ctx)
         if replay is not None:
             case = codec.dec(replay)
-            sess.current_case = replay
-            mod.execute(ctx, case)
+            _exec_case(ctx, mod, case)
             executed = 1
         elif workload == "W2":
             executed = _run_repo_tests(ctx, mod)
@@ -132,9 +131,15 @@ def _exec_case(ctx, mod, case):
     sess = ctx.sess
     sess.current_case = _LazyCase(case)
     sess.current_case_info = None
+    v0 = sum(m.violated for m in sess.monitors.values())
     try:
         nontrivial = mod.execute(ctx, case)
     except Exception as e:
+        if sum(m.violated for m in sess.monitors.values()) > v0:
+            # a monitor's on_exc handler has judged this exception: it is a recorded violation, not an unexplained abort
+            sess.notes["cases_ended_by_judged_exception"] += 1
+            sess.count_case(_fast_hash(case), True, None)
+            return
         # The library (or the driver) raised in the middle of a case. Monitors with an on_exc handler have already
         # judged it if it is a property violation; otherwise the run is inconclusive. Either way, keep going.
         import traceback
